@@ -25,6 +25,9 @@ type StrictLedger struct {
 	// Hook, if set, is called (without the lock) after a registration was
 	// accepted and before its event is emitted.
 	Hook func(who, ev string, id channel.ID, ver uint64)
+	// FundGate, if set, is asked when a Fund call is about to report success: a non-nil channel holds the call
+	// until it is closed.
+	FundGate func(who string, id channel.ID) <-chan struct{}
 }
 
 // LedgerEvent is one logged ledger call / effect.
@@ -250,6 +253,15 @@ func (b *Backend) Fund(ctx context.Context, req channel.FundingReq) error {
 	l.mu.Unlock()
 	select {
 	case <-c.fundedCh:
+		if g := l.FundGate; g != nil { // a scheduling point: the funding is complete, this caller learns it later
+			if ch := g(b.Name, req.Params.ID()); ch != nil {
+				select {
+				case <-ch:
+				case <-ctx.Done():
+					return ctx.Err()
+				}
+			}
+		}
 		return nil
 	case <-time.After(time.Duration(req.Params.ChallengeDuration) * time.Second):
 		return channel.NewFundingTimeoutError([]*channel.AssetFundingError{{Asset: 0, TimedOutPeers: []channel.Index{req.Idx ^ 1}}})
